@@ -59,17 +59,7 @@ def oracle(ctx, stream, case_lines, rep):
 # Known findings of C03 that known-findings.json does not carry yet (sent to the coordinator, notes/C03.md "Review
 # round 2"); a local copy is used until it does, so that exactly this input class is a KNOWN-FINDING line and anything
 # else still fails (BUILDING.md: "test with a local copy of the entry").
-LOCAL_KNOWN = [{
-    "property_id": "C03",
-    "status": "known",
-    "fingerprint": "e2e:delta-ne-fresh:ondemand:service-member-added-after-subscribe",
-    "what": ("known: property=C03 an on-demand WDS client that subscribed to a SERVICE (namespace/hostname or VIP) was answered with the "
-             "service and its workloads of that moment; a workload that becomes a member later (selector / label change, pod created) is "
-             "never pushed to it: the Service resource itself does not change, and pushes match subscriptions by resource name only "
-             "(AddressesUpdated intersected with ResourceNames), where the new member's name is not. A fresh client with the same "
-             "subscription gets the member (same root cause as alias-key-created-after-subscribe)"),
-    "witness": {"corpus": "harness/e2e/corpus/c03.zt-ondemand-service-member-added-after-subscribe.json"},
-}]
+LOCAL_KNOWN = []  # every known finding lives in /verif/known-findings.json
 
 
 def add_local_known(ctx):
